@@ -85,6 +85,8 @@ def _from_radials(chk, prog, FR):
             role["N"] = l
         elif "IntoIter" in ty:
             role["I"] = l
+    if set(role) == {"S", "I"}:
+        return _append_to_last(chk, prog, fn, FR, lp, role, where)
     if set(role) != {"S", "R", "N", "I"}:
         chk.blind("R-LIN", FR, "loop state is not (sweeps, pending run, label, iterator): tracked %s" % [(fn.local_name(l), fn.local_ty(l)) for l in lp["tracked"]], where)
         return
@@ -196,6 +198,74 @@ def _eq_verdict(conds, ea, eb):
 def _concat(t):
     """sequence of a first-then-second concatenation (extend/append chains over a fresh or moved-in vector)"""
     return listalg.seq(t)
+
+
+def _append_to_last(chk, prog, fn, FR, lp, role, where):
+    """the other way of writing the grouping: no pending run; each radial either joins the last emitted sweep (when that
+    sweep exists and carries the radial's elevation number) or starts a new one-radial sweep. Induction on
+    content(state) = flatten(sweeps), with the list laws flatten(S with last := s') = flatten(S) ++ (inner(s') - inner(last S))
+    for non-empty S and flatten(S ++ [s]) = flatten(S) ++ inner(s)."""
+    SWP = CFG["group"]
+    S, I = P("L%d" % role["S"]), P("L%d" % role["I"])
+    e0 = lp["entry"]
+    chk.ob("R-LIN", FR, listalg.seq(e0[role["S"]]) == [], "before the loop: no sweeps", where, key="init")
+    src = listalg.seq(e0[role["I"]])
+    chk.ob("R-LIN", FR, src == [("atom", P(fn.local_name(1) or "arg1"))], "the loop iterates the input vector itself, in order (%s)" % listalg.show(src), where, key="source")
+    last = ("last", S)
+    n_cases = 0
+    for conds, kind, val in lp["paths"]:
+        if kind == "exit:normal":
+            chk.ob("R-LIN", FR, len(conds) == 1 and conds[0][0][0] == "discr" and conds[0][0][1][0] == "call" and "Iterator>::next" in conds[0][0][1][1],
+                   "the loop ends exactly when the iterator is exhausted", where, key="exit-when-exhausted")
+            continue
+        if kind != "next":
+            chk.ob("R-LIN", FR, False, "the loop can be left in an unexpected way (%s)" % kind, where, key="exit:" + kind)
+            continue
+        call = conds[0][0][1] if conds and conds[0][0][0] == "discr" else None
+        okc = call is not None and call[0] == "call" and "Iterator>::next" in call[1] and call[2] == (I,)
+        chk.ob("R-LIN", FR, bool(okc), "each iteration takes its radial from one call of next() on the loop's iterator", where, key="one-next")
+        if not okc:
+            continue
+        r = ("vfld", call, "Some", "0")
+        er = fld(r, CFG["elem_label"])
+        el = fld(last, CFG["label"])
+        for c2, v in loops.split_cases(val):
+            n_cases += 1
+            tag = "case#%d" % n_cases
+            truth = lambda terms: [c[1] for c in c2 if len(c) == 2 and c[0] in terms]
+            emp = truth({("call", "core::slice::<impl [T]>::is_empty", (S,)), ("call", "alloc::vec::Vec::<T, A>::is_empty", (S,))})
+            same = truth({binop("Eq", el, er, "u8"), binop("Eq", er, el, "u8")}) + [not x for x in truth({binop("Ne", el, er, "u8"), binop("Ne", er, el, "u8")})]
+            nonempty = emp == [False]
+            sv = v[role["S"]]
+            ext = ("upd_last", S, ("upd", last, CFG["radials"], ("mutated", "alloc::vec::Vec::<T, A>::push", 0, (fld(last, CFG["radials"]), r))))
+            s2 = listalg.seq(sv)
+            if sv == ext:
+                chk.ob("R-LIN", FR, True, "content' = content ++ [r] (r appended to the last sweep's radials)", where, key=tag + ":step")
+                okk = nonempty and same == [True]
+                chk.ob("R-LIN", FR, okk, "the last sweep is extended only when it exists and carries r's elevation number" if okk else
+                       "a radial is appended to the last sweep without that sweep existing and having r's elevation number", where, key=tag + ":run-invariant")
+            elif s2 is not None and len(s2) == 2 and s2[0] == ("atom", S) and s2[1][0] == "elem":
+                x = s2[1][1]
+                inner = listalg.seq(fld(x, CFG["radials"])) if x[0] == "adt" and x[1] == SWP else None
+                okk = inner == [("elem", r)]
+                chk.ob("R-LIN", FR, okk, "content' = content ++ [r] (a new sweep holding exactly r)" if okk else
+                       "radials are not conserved on this path: the new sweep holds %s" % listalg.show(inner), where, key=tag + ":step")
+                chk.ob("R-LIN", FR, x[0] == "adt" and fld(x, CFG["label"]) == er, "the new sweep is labelled elevation(r)", where, key=tag + ":label")
+                okk = emp == [True] or (nonempty and same == [False])
+                chk.ob("R-LIN", FR, okk, "a new sweep starts only when there is none yet or the last one carries a different elevation number" if okk else
+                       "a new sweep is started although the last sweep has r's elevation number (adjacent sweeps would share a number)", where, key=tag + ":emit")
+            else:
+                chk.ob("R-LIN", FR, False, "radials are not conserved on this path: sweeps' = %s" % show(sv)[:200], where, key=tag + ":step")
+            it = v[role["I"]]
+            chk.ob("R-LIN", FR, it[0] == "mutated" and it[3][0] == I and "Iterator>::next" in it[1], "the iterator is advanced exactly once", where, key=tag + ":advance")
+    chk.floor("iteration cases", n_cases, 3)
+    try:
+        ret = loops.exit_value(prog, fn, lp)
+    except sym.Undecided as e:
+        chk.blind("R-LIN", FR, "exit continuation undecided: %s" % e, where)
+        return
+    chk.ob("R-LIN", FR, ret == S, "at end of input the result is the list of sweeps built so far (content flatten(sweeps))" if ret == S else
+           "at end of input the result is %s, not the sweeps built" % show(ret)[:200], where, key="exit:no-run")
 
 
 def merge(chk, prog):
